@@ -304,9 +304,19 @@ func applyFault(t *core.Tape, f int, rec []byte, foreign func() []byte) []byte {
 		}
 		return append(out, b[i:]...)
 	case FSpace:
+		// a run of one to three blanks (space, tab, NBSP byte) somewhere, often at an end
 		i := t.Choose(n + 1)
+		switch t.Choose(4) {
+		case 0:
+			i = n
+		case 1:
+			i = 0
+		}
 		out := append([]byte(nil), b[:i]...)
-		out = append(out, ' ')
+		k := 1 + t.Choose(3)
+		for j := 0; j < k; j++ {
+			out = append(out, []byte{' ', ' ', ' ', '\t', '_'}[t.Choose(5)])
+		}
 		return append(out, b[i:]...)
 	}
 	return b
